@@ -24,10 +24,12 @@ from typing import Any, Dict, List, Optional, Tuple
 from .. import core, defx
 
 ALIASES = {"AL_I16": "int16", "AL_F": "double", "AL_C": "char", "AL_U": "unsigned long long", "AL_B": "byte", "AL2": "AL_I16", "AL3": "AL2"}
-NESTED = {"NS1": {"c": "char[3]"}, "NS2": {"a": "int16"}, "NS4": {"a": "int32", "b": "int16"}, "NS8": {"d": "double", "i": "int32"}}
-NMSG = {"NM": {"id": 5900, "fields": {"a": "int32", "b": "int8"}}}
+NESTED = {"NS1": {"c": "char[3]"}, "NS2": {"a": "int16"}, "NS4": {"a": "int32", "b": "int16"}, "NS8": {"d": "double", "i": "int32"},
+          # structs whose whole layout is ONE scalar (a flag, a byte): an array of them is an array of structs in every language
+          "NSC": {"c": "char"}, "NSB": {"b": "byte"}}
+NMSG = {"NM": {"id": 5900, "fields": {"a": "int32", "b": "int8"}}, "NMC": {"id": 5902, "fields": {"c": "char"}}}
 VAR_TARGETS = ["int16", "double", "uint8", "float", "long long", "char"]
-TYPES = defx.NATIVE_NAMES + list(ALIASES) + list(NESTED) + ["NM", "AL_VAR", "AL_VAR2"]
+TYPES = defx.NATIVE_NAMES + list(ALIASES) + list(NESTED) + list(NMSG) + ["AL_VAR", "AL_VAR2"]
 LENGTHS = [None, "1", "2", "3", "K3", "K3 * 2", "K3 - 1"]
 REP = ["char", "int8", "uint16", "int32", "double", "unsigned long", "long long", "AL3", "AL_C", "NS1", "NS4", "NS8", "NM", "byte", "float", "AL_VAR"]
 
@@ -89,7 +91,7 @@ def batch_program(seqs, bi: int) -> Tuple[defx.Program, Dict[str, Any]]:
     for k, seq in enumerate(seqs):
         # every fifth definition spells one field name with a leading underscore (reserved / spare fields are commonly named so)
         fields = {(f"_f{i}" if (k % 5 == 0 and i == min(1, len(seq) - 1)) else f"f{i}"): ftext(t, L) for i, (t, L) in enumerate(seq)}
-        uses_msg = any(t == "NM" for t, _ in seq)
+        uses_msg = any(t in NMSG for t, _ in seq)
         as_msg = uses_msg or k % 2 == 1
         part = parts[k % 3 if shape != "single" else 0]
         name = f"D{k}"
@@ -215,6 +217,7 @@ def num(v):
 def check_batch(args) -> Dict[str, Any]:
     bi, seqs = args[:2]
     rebuild = len(args) > 2 and args[2] == "rebuild"
+    named = args[3] if len(args) > 3 and args[2] == "named" else None
     problems: List[Dict[str, Any]] = []
     stats = {"definitions": 0, "field_comparisons": 0, "id_comparisons": 0, "padded": 0}
     d = core.scratch_dir("c04")
@@ -223,7 +226,15 @@ def check_batch(args) -> Dict[str, Any]:
         problems.append({"kind": kind, "batch": bi, **({"rebuild": True} if rebuild else {}), **kw})
 
     try:
-        prog, meta = batch_program(seqs, bi)
+        if named:
+            # a field carries a name the generated classes use themselves: the file is either refused, or - when accepted - described
+            # identically by all outputs like any other
+            prog = defx.Program({"root.yaml": {"struct_defs": {"SB_NAMED": {"fields": {"a": "int8", named: "double"}}},
+                                               "message_defs": {"BLOCK_INFO": {"id": 6000, "fields": {"serial": "int32", named: "int32", "tail": "double"}},
+                                                                "BLOCK_REPORT": {"id": 6001, "fields": {named: "int16", "x": "int8", "s": "SB_NAMED"}}}}})
+            meta = {}
+        else:
+            prog, meta = batch_program(seqs, bi)
         try:
             if rebuild:
                 # an earlier build of the same root file sits in the output directory; then only IMPORTED files are edited (other
@@ -245,6 +256,9 @@ def check_batch(args) -> Dict[str, Any]:
         except core.HarnessError:
             raise
         except Exception as e:
+            if named:
+                stats["names_refused"] = 1
+                return {"problems": [], "stats": stats}
             return {"problems": [{"kind": "batch-rejected", "exc": f"{type(e).__name__}: {str(e)[:300]}", "batch": bi, **({"rebuild": True} if rebuild else {})}], "stats": stats}
         p = defx.parse_model(paths["root"])
         sp = defx.sig_parser(p)
@@ -382,7 +396,8 @@ def run(tier: str) -> int:
     batches = [(i, b) for i, b in enumerate(core.chunks(core.shuffled(seqs, "c04"), 250))]
     multi = [b for b in batches if SHAPES[b[0] % len(SHAPES)] != "single"]
     rebuilds = [(i, b, "rebuild") for i, b in (multi[:4] if tier == "quick" else multi)]
-    res = core.pmap(check_batch, batches + rebuilds)
+    names = [(9000 + i, [], "named", n) for i, n in enumerate(("type_id", "type_name", "type_hash", "type_source", "type_def", "type_size", "hexdump", "size_type"))]
+    res = core.pmap(check_batch, batches + rebuilds + names)
     core.close_pool()
     totals: Dict[str, int] = {}
     for r in res:
